@@ -143,6 +143,28 @@ fn c02_failed_step() -> Option<String> {
     None
 }
 
+/// API-level witness for C15: a stray `endenum` is rejected the same way by eval and by compile
+fn c15_api() -> Option<String> {
+    let mut kinds = Vec::new();
+    for compile in [false, true] {
+        let mut xs = xs::boot_safe();
+        xs.set_insn_limit(Some(50_000)).unwrap();
+        if xs.eval("7 8").is_err() {
+            return Some("setup failed".into());
+        }
+        let src = "#( 0 endenum";
+        let r = match guard(|| if compile { xs.compile(src) } else { xs.eval(src) }) {
+            Ok(r) => r,
+            Err(pm) => return Some(format!("panic: {}", pm)),
+        };
+        kinds.push(xs::render_res(&r));
+    }
+    if kinds[0] != kinds[1] {
+        return Some(format!("`7 8` then `#( 0 endenum`: eval gives {}, compile gives {}", kinds[0], kinds[1]));
+    }
+    None
+}
+
 /// API-level witness for C06 (needs set_stack_limit): a read that cannot deliver its value does not consume input
 fn c06_api() -> Option<String> {
     for word in ["u8", "i16be", "f32", "cstr", "nulbytestr"] {
@@ -179,6 +201,11 @@ pub fn run_for(prop: &str) -> Vec<(String, String)> {
             bad.push((name.to_string(), d));
         }
     }
+    if prop == "C15" {
+        if let Some(d) = c15_api() {
+            bad.push(("stray-endenum-same-error-in-every-drive".to_string(), d));
+        }
+    }
     if prop == "C06" {
         if let Some(d) = c06_api() {
             bad.push(("read-refused-by-full-stack-keeps-cursor".to_string(), d));
@@ -196,5 +223,5 @@ pub fn run_for(prop: &str) -> Vec<(String, String)> {
 }
 
 pub fn count_for(prop: &str) -> usize {
-    WITNESSES.iter().filter(|w| w.prop == prop && !w.name.starts_with("placeholder")).count() + OUT_WITNESSES.iter().filter(|w| w.0 == prop).count() + if prop == "C02" { 2 } else if prop == "C06" { 1 } else { 0 }
+    WITNESSES.iter().filter(|w| w.prop == prop && !w.name.starts_with("placeholder")).count() + OUT_WITNESSES.iter().filter(|w| w.0 == prop).count() + if prop == "C02" { 2 } else if prop == "C06" || prop == "C15" { 1 } else { 0 }
 }
